@@ -99,7 +99,31 @@ def gen(ctx):
             cases.append([None if r.random() < 0.5 else r.choice([0, 1, w - 2, w - 1, w, r.randrange(w), r.randrange(70)]) for _ in range(r.randint(1, 5))])
         for items in cases:
             L.append(("enum 2 %s %s" % (ty, ",".join("_" if x is None else str(x) for x in items)), "flags", (ty, items)))
+    # force_align: every power of two and its neighbours, the limit, and values whose low 8/16/32 bits alone would be a permitted alignment
+    fav = [0, 1, 2, 3, 4, 5, 6, 7, 8, 9, 15, 16, 17, 32, 64, 100, 128, 255, 256, 257, 512, 1024, 32768, 65535, 65536, 2**32, 2**63, 2**64 - 1, 2**64, 2**64 + 16]
+    for base in (2**8, 2**16, 2**17, 2**32, 2**63):
+        fav += [base + a for a in (1, 2, 4, 8, 16, 64, 256)]
+    if not ctx.quick():
+        fav += [r.getrandbits(r.choice([4, 9, 17, 33, 64])) for _ in range(300)]
+    for nat in (1, 2, 4, 8):
+        for v in fav:
+            toks = [str(v)] + ([hex(v)] if v < 2**64 and (v % 7 == 0 or v in (16, 256, 65552)) else [])
+            for tok in toks:
+                L.append(("falign %d %s" % (nat, tok), "falign", (nat, tok)))
+        for tok in ("-16", "-1", "-0"):
+            L.append(("falign %d %s" % (nat, tok), "falign", (nat, tok)))
     return L
+
+
+def spec_falign(nat, tok, out):
+    """independent oracle: accepted iff the literal is a non-negative integer whose value is a power of two in 1..256 and >= the natural alignment;
+    the struct then has exactly that alignment"""
+    neg = tok.startswith("-")
+    v = int(tok, 0)
+    ok = (not neg) and v in (1, 2, 4, 8, 16, 32, 64, 128, 256) and v >= nat
+    if ok:
+        return None if out.split(" ")[:2] == ["ok", str(v)] else "force_align %s over natural alignment %d: expected alignment %d, got %s" % (tok, nat, v, out)
+    return None if out == "reject" else "force_align %s (not a permitted alignment for natural alignment %d) accepted: %s" % (tok, nat, out)
 
 
 def spec_flags(ty, items, out):
@@ -154,6 +178,8 @@ def run(ctx):
     def canon(l, o):
         if l.startswith("enum") and o.startswith("ok "):
             return "ok " + ",".join(sorted(o[3:].split(","), key=int))
+        if l.startswith("falign") and o.startswith("ok "):
+            return " ".join(o.split(" ")[:2])      # the alignment; the size (C side only) is C07's business
         return o
     out_c2 = [canon(l, o) for l, o in zip(lines, out_c)]
     out_m2 = [canon(l, o) for l, o in zip(lines, out_m)]
@@ -162,7 +188,8 @@ def run(ctx):
     known = [f for f in load_known() if f["property"] == "C08" and f["status"] == "known"]
     spec_fail, known_hit = [], {}
     for i, (l, kind, meta) in enumerate(items):
-        why = spec_lit(meta[0], meta[1], meta[2], out_c[i]) if kind == "lit" else spec_flags(meta[0], meta[1], out_c[i]) if kind == "flags" else spec_enum(meta[0], meta[1], out_c[i])
+        why = spec_lit(meta[0], meta[1], meta[2], out_c[i]) if kind == "lit" else spec_flags(meta[0], meta[1], out_c[i]) if kind == "flags" \
+            else spec_falign(meta[0], meta[1], out_c[i]) if kind == "falign" else spec_enum(meta[0], meta[1], out_c[i])
         if why:
             # known finding: silent sign change for negative magnitudes above 2^63
             if kind == "lit" and meta[1].startswith("-") and meta[1] not in ("true", "false") and abs(tok_value(meta[1])) > 2**63 and abs(tok_value(meta[1])) < 2**64 \
